@@ -139,14 +139,59 @@ func must(err error) {
 
 type infra struct{ err error }
 
+var canaryCache = map[string][]byte{}
+
+// canaryRecord is a valid serialized database record whose payload names the place it is planted at.
 func canaryRecord(at string) []byte {
+	if b, ok := canaryCache[at]; ok {
+		return b
+	}
 	meta := &record.Meta{}
 	meta.Update()
 	w, err := record.NewWrapper("db:canary", meta, dsd.JSON, []byte(`{"at":"`+at+`"}`))
 	must(err)
 	data, err := w.MarshalRecord(w)
 	must(err)
+	canaryCache[at] = data
 	return data
+}
+
+// writeFile / readFile: plain system calls (the sandbox is built and read ~10^5 times per run)
+func writeFile(p string, data []byte) error {
+	fd, err := syscall.Open(p, syscall.O_WRONLY|syscall.O_CREAT|syscall.O_TRUNC|syscall.O_CLOEXEC, 0o644)
+	if err != nil {
+		return &os.PathError{Op: "open", Path: p, Err: err}
+	}
+	_, err = syscall.Write(fd, data)
+	syscall.Close(fd)
+	if err != nil {
+		return &os.PathError{Op: "write", Path: p, Err: err}
+	}
+	return nil
+}
+
+var readBuf = make([]byte, 1<<16)
+
+func readFile(p string) ([]byte, error) {
+	fd, err := syscall.Open(p, syscall.O_RDONLY|syscall.O_CLOEXEC|syscall.O_NOFOLLOW, 0)
+	if err != nil {
+		return nil, err
+	}
+	defer syscall.Close(fd)
+	n := 0
+	for {
+		k, err := syscall.Read(fd, readBuf[n:])
+		if err != nil {
+			return readBuf[:n], err
+		}
+		if k == 0 {
+			return readBuf[:n], nil
+		}
+		n += k
+		if n == len(readBuf) {
+			return readBuf[:n], nil // canaries and unpacked files are tiny; a prefix of 64 KiB is enough
+		}
+	}
 }
 
 type sandbox struct {
@@ -161,19 +206,20 @@ func isAncestorOrSelf(anc, p string) bool {
 
 // file plants one canary record file (content names its own place).
 func (sb *sandbox) file(p string) {
-	rel, _ := filepath.Rel(sb.m.top, p)
-	must(os.WriteFile(p, canaryRecord(rel), 0o644))
+	must(writeFile(p, canaryRecord(p[len(sb.m.top)+1:])))
 }
 
-func (sb *sandbox) leafDir(d string, deep bool) {
+// chain plants files b and y_v1-0-0.bin in d and a chain of directories a/ below it, as deep as a name
+// with `rem` segments left can look.
+func (sb *sandbox) chain(d string, rem int) {
 	must(os.MkdirAll(d, 0o755))
+	if rem < 1 {
+		return
+	}
 	sb.file(d + "/b")
 	sb.file(d + "/" + verFile)
-	must(os.MkdirAll(d+"/a", 0o755))
-	sb.file(d + "/a/b")
-	if deep {
-		must(os.MkdirAll(d+"/a/a", 0o755))
-		sb.file(d + "/a/a/b")
+	if rem >= 2 {
+		sb.chain(d+"/a", rem-1)
 	}
 }
 
@@ -187,14 +233,28 @@ func (sb *sandbox) onRootPath(d string) bool {
 	return false
 }
 
-// plant fills directory d: files b and y_v1-0-0.bin, directory a, the sibling <root>-other and a
-// namesake <root> (unless that is the real root).
-func (sb *sandbox) plant(d string) {
-	sb.leafDir(d, true)
-	sb.leafDir(d+"/"+sb.m.rootName+"-other", false)
-	if n := d + "/" + sb.m.rootName; !sb.onRootPath(n) {
-		sb.leafDir(n, false)
+// plant fills directory d for a name that has `rem` segments left when it arrives there: files b and
+// y_v1-0-0.bin, directory a, the sibling <root>-other and a namesake <root> (unless that is the real root).
+func (sb *sandbox) plant(d string, rem int) {
+	if rem < 1 {
+		return
 	}
+	sb.chain(d, rem)
+	sb.chain(d+"/"+sb.m.rootName+"-other", rem-1)
+	if n := d + "/" + sb.m.rootName; !sb.onRootPath(n) {
+		sb.chain(n, rem-1)
+	}
+}
+
+// steps is the number of segments a name needs to get from directory `from` to directory `to`.
+func steps(from, to string) int {
+	a := strings.Split(from, "/")
+	b := strings.Split(to, "/")
+	c := 0
+	for c < len(a) && c < len(b) && a[c] == b[c] {
+		c++
+	}
+	return len(a) - c + len(b) - c
 }
 
 func ancestors(top, p string) []string {
@@ -222,7 +282,7 @@ func snapshot(top string) map[string]entry {
 			res[p] = entry{typ: "unreadable"}
 			return nil
 		}
-		info, err := os.Lstat(p)
+		info, err := d.Info()
 		if err != nil {
 			res[p] = entry{typ: "gone"}
 			return nil
@@ -243,7 +303,7 @@ func snapshot(top string) map[string]entry {
 		case info.Mode().IsRegular():
 			e.typ = "file"
 			e.size = info.Size()
-			b, err := os.ReadFile(p)
+			b, err := readFile(p)
 			if err != nil {
 				e.typ = "file-unreadable"
 			}
@@ -404,7 +464,8 @@ func writeArchive(path, hostile string, dir bool) {
 		}
 		w, err := zw.CreateHeader(fh)
 		must(err)
-		if !isDir {
+		// the format itself makes every name that ends in a separator a directory: no content then
+		if !isDir && !strings.HasSuffix(name, "/") {
 			_, err = w.Write([]byte(content))
 			must(err)
 		}
@@ -535,19 +596,27 @@ func execute(v vector, tmpBase string) (ev map[string]any) {
 		must(fmt.Errorf("unknown component %q", v.Comp))
 	}
 
-	// canaries: every ancestor of every root, and (except for the unpack directories, which must not
-	// exist yet) the roots themselves
+	// canaries wherever a name of at most pad-1 segments can arrive: in the ancestors of the roots and
+	// (except for the unpack directories, which must not exist yet) in the roots themselves
+	maxLen := v.Pad - 1
+	if len(v.Segs) > maxLen {
+		maxLen = len(v.Segs)
+	}
 	seen := map[string]bool{}
 	for _, r := range sb.roots {
 		for _, d := range ancestors(top, r) {
 			if !seen[d] {
 				seen[d] = true
-				sb.plant(d)
+				sb.plant(d, maxLen-steps(base, d))
 			}
 		}
 	}
 	if v.Comp != "zip" {
-		sb.plant(sb.roots[0])
+		rem := maxLen - steps(base, sb.roots[0])
+		if rem > 3 {
+			rem = 3
+		}
+		sb.plant(sb.roots[0], rem)
 	}
 
 	switch v.Comp {
